@@ -79,6 +79,12 @@ CLAIMS = {
         technique="source-to-Coq translation + Coq proof (checker soundness by induction) + differential execution against dis on six hosts",
         design="7/C20",
     ),
+    "C18": dict(
+        text="PARTIAL proof + monitored execution. Proved in Coq: a frame theorem (if operations write only cells no result depends on, the result of any probe after ANY finite history equals its result right after import, and a repeated call repeats its result), instantiated on an inventory regenerated from the AST of every module of /repo on every run: mutable default arguments, their self.x aliases, module globals, argument objects, setattr; every statement that changes such state inside a function body must fall in a class (import-time table builder - call sites checked, per-call object, write-only cell - no reads of its content anywhere, default every caller overrides, explicit remapping); a new mutation site, a read of a write-only cell or a new mutated default breaks the obligation. Execution: random histories of 1-40 public operations in one process then a probe, against the probe as first call of a fresh process and against its own repetition, shrunk on difference; all ~1300 module-level containers and mutable defaults of xdis.* digested before/after.",
+        note="Trusted: Coq kernel; AST scanner tools/translate/mutstate.py (syntactic: aliasing beyond self.x = param and state reached through attribute chains of locals is not tracked); classification table coq/Model/History.v; harness digests. State outside the package (linecache, import system) is not in the inventory. No axioms (result functions are required to be extensional, stated as a hypothesis).",
+        technique="Coq frame theorem + source-derived inventory obligations (vm_compute) + randomized history execution against fresh processes",
+        design="7/C18",
+    ),
     "C19": dict(
         text="Machine-checked Coq proofs of the round-trip law for the three freeze() encoders, for EVERY mapping with offsets strictly increasing from 0 and consecutive lines different, offset and line gaps unbounded (continuation entries are induction cases): findlinestarts(decode) of Code3/Code38's table (signed, any decreasing lines), of Code15/Code2's table (lines increasing; reads back under both the unsigned and the signed rule), and of Code310's range table (via co_lines()) returns the mapping. By the C05 theorems the decoders used are CPython's. Encoder models tied to /repo by in-Coq correspondence (dict and list inputs, boundary gaps); model-made tables are additionally decoded by the real 2.7, 3.6-3.10.",
         note="Trusted: Coq kernel; hand model coq/Model/Freeze.v (while-loops as closed forms) + correspondence harness; C05 decoder theorems and spec validation. Hypotheses stated in the theorems: offsets start at 0, lie inside co_code, consecutive lines differ; for 1.5-2.7 lines do not decrease. No axioms.",
